@@ -25,6 +25,16 @@ META = dict(
 META["text"] += ' Sample numbers are re-derived from the seed and the position alone, never from what earlier rounds did to the records (= C07.R5).'
 
 
+def _norm_empty(e):
+    """set([]) is set(); list() is []"""
+    import sympy as sp
+    repl = {}
+    for sub in sp.preorder_traversal(e):
+        if isinstance(sub, sp.core.function.AppliedUndef) and sub.func.__name__ == "set" and len(sub.args) == 1 and sp.sstr(sub.args[0]) in ("[]", "list()", "()"):
+            repl[sub] = sp.Function("set")()
+    return e.xreplace(repl) if repl else e
+
+
 def run(chk):
     chk.explain(
         "R1 append-uniqueness and keep-earlier-cards on sampled_cvr_indices in consistent_sampling; R2 sticky confirmation "
@@ -39,12 +49,37 @@ def run(chk):
     sel = f["selected"]
     # (a) the selection starts as the set of the earlier rounds' cards ...
     inits = [s for s in fn.body if isinstance(s, ast.Assign) and sel and norm(s.targets[0]) == sel and s.lineno < w.lineno]
-    ok_init = len(inits) == 1 and norm(inits[0].value) in (f"set({lst})", f"set({lst}or[])", f"{{*{lst}}}")
-    none_norm = [s for s in fn.body if isinstance(s, ast.If) and norm(s.test) in (f"{lst}isNone", f"not{lst}") and s.lineno < (inits[0].lineno if inits else 0)]
-    ok_none = bool(none_norm) and all(norm(x) == f"{lst}=[]" for x in none_norm[0].body) and not none_norm[0].orelse
-    chk.ob("C10.R1", where, "selection-starts-with-earlier-cards", ok_init and (ok_none or "or[]" in norm(inits[0].value) if inits else False),
+    # the value the set has when the walk starts, as a term over the parameter (whatever way None is normalised: an `if` before,
+    # a conditional expression, `or []`)
+    tx = Tx()
+    tx.post = _norm_empty
+    from ..symx import E as _E, S as _S
+    for a_ in fn.args.args:
+        tx.env[a_.arg] = _E(_S(a_.arg))
+    for st in fn.body:
+        if st is w:
+            break
+        if isinstance(st, (ast.Assign, ast.If)) and not any(isinstance(n, (ast.Return, ast.Raise, ast.Lambda, ast.ListComp, ast.For)) for n in ast.walk(st)):
+            saved = dict(tx.env)
+            try:
+                tx.block([st])
+            except symx.Unsupported:
+                tx.env = saved
+    got = tx.env.get(sel) if sel else None
+    ok_init = False
+    if got is not None and len(inits) == 1:
+        for src in (f"set() if {lst} is None else set({lst})", f"set({lst} or [])"):
+            w_ = Tx()
+            w_.post = _norm_empty
+            try:
+                want = w_.expr(ast.parse(src, mode="eval").body)
+                if symx.equivalent(symx.map_e(got, _norm_empty), symx.map_e(want, _norm_empty))[0]:
+                    ok_init = True
+            except symx.Unsupported:
+                pass
+    chk.ob("C10.R1", where, "selection-starts-with-earlier-cards", ok_init,
            "the set of selected cards is initialised with the cards selected in earlier rounds (empty when none were supplied)",
-           node=inits[0] if inits else fn, strength="N", init=norm(inits[0].value) if inits else None)
+           node=inits[0] if inits else fn, strength="N", init=repr(got)[:200] if got is not None else None)
     # ... and only ever grows
     bad = []
     for c in walk_local(fn):
